@@ -391,7 +391,10 @@ pub fn finish(args: &Args, meta: Meta, ev: Evidence, started: Instant) -> i32 {
     // inconclusive conditions
     let mut inconclusive = ev.inconclusive.clone();
     for (k, floor) in &meta.floors {
-        let got = ev.counters.get(k).copied().unwrap_or(0);
+        let got = match k.strip_prefix("distinct_") {
+            Some(set) if ev.sets.contains_key(set) => ev.sets[set].len() as u64,
+            _ => ev.counters.get(k).copied().unwrap_or(0),
+        };
         if got < *floor {
             inconclusive.push(format!("counter {k}={got} below floor {floor}"));
         }
